@@ -122,6 +122,13 @@ fn panic_tag(obs: &Obs) -> String {
 
 impl Check for Hostile {
     fn id(&self) -> &'static str { self.id }
+    fn memcheck_plan(&self, tier: Tier) -> Option<(crate::core::framework::MemMode, Vec<(u64, u64)>)> {
+        if tier != Tier::Thorough || self.id != "C01" {
+            return None;
+        }
+        let total = self.total_cases(tier);
+        Some((crate::core::framework::MemMode::Harness, (0 .. 16).map(|i| (i * (total / 16), 3000)).collect()))
+    }
     fn miri_plan(&self, tier: Tier) -> Option<Vec<(u64, u64)>> {
         if tier != Tier::Thorough || self.id != "C01" {
             return None;
@@ -130,7 +137,7 @@ impl Check for Hostile {
     }
     fn rule(&self) -> String {
         format!(
-            "{} public entry points (every protocol query, per-game wrappers, master-server service, generic dispatch for every GAMES entry) x settings (retries 0-2, gather toggles, app-id check, timeouts None/Some) run against static hostile reply scripts derived from well-formed exchanges of the server models: (1) truncation of every reply at every byte offset for {} fixed seed exchanges, (2) every byte of those exchanges set to each of {:?}, (3) random mutations (byte/field extremes, extreme decimals, deleted terminators, VarInt inflation, invalid text, dropped/duplicated/reordered/empty/64 KiB datagrams, repeated challenge streams, random tails, random datagrams, fragment-header values, silence from any point). non-trivial = the client consumed at least one scripted datagram; distinct by (entry point, settings, script)",
+            "{} public entry points (every protocol query, per-game wrappers, master-server service, generic dispatch for every GAMES entry) x settings (retries 0-2, gather toggles, app-id check, timeouts None/Some) run against static hostile reply scripts derived from well-formed exchanges of the server models: (1) truncation of every reply at every byte offset for {} fixed seed exchanges, (2) every byte of those exchanges set to each of {:?}, (3) random mutations (byte/field extremes, extreme decimals, deleted terminators, VarInt inflation, invalid and multi-byte text, compressed split answers whose valid bzip2 stream inflates to 24-40 MiB behind a small declared size, dropped/duplicated/reordered/empty/64 KiB datagrams, repeated challenge streams, random tails, random datagrams, fragment-header values, silence from any point). non-trivial = the client consumed at least one scripted datagram; distinct by (entry point, settings, script)",
             self.eps.len(),
             self.fixed.len(),
             BYTE_VALUES
